@@ -22,6 +22,7 @@ pub const PKG_VERSION: &str = env!("CARGO_PKG_VERSION");
 mod buztable;
 mod c01;
 mod c04;
+mod c05;
 mod c09;
 mod c10;
 mod c17;
@@ -110,6 +111,7 @@ fn main() {
                 "C12" => c01::c12(&mut rep),
                 "C17" => c17::run(&mut rep),
                 "C04" => c04::run(&mut rep),
+                "C05" => c05::run(&mut rep),
                 "C07" => netchecks::c07(&mut rep),
                 "C08" => netchecks::c08(&mut rep),
                 "C02" => clonechecks::c02(&mut rep),
@@ -133,6 +135,7 @@ fn main() {
                 "C07" | "C08" => netchecks::replay(&id, &detail),
                 "C17" => c17::replay(&detail),
                 "C04" => c04::replay(&detail),
+                "C05" => c05::replay(&detail),
                 "C01" | "C11" | "C12" => c01::replay(&id, &detail),
                 "C02" | "C03" | "C06" | "C13" => clonechecks::replay(&id, &detail),
                 _ => {
